@@ -2,7 +2,21 @@
 package props
 
 import (
+	"verif/harness/h"
+	"verif/seq/c14"
+	"verif/seq/c15"
+	"verif/seq/c16"
+
 	_ "verif/harness/c01"
 	_ "verif/harness/c03"
+	_ "verif/harness/c04"
+	_ "verif/harness/c05"
 	_ "verif/harness/c09"
+	_ "verif/harness/c12"
 )
+
+func init() {
+	h.Register("C14", func(tier string) ([]*h.Scn, []*h.Plain) { return nil, c14.Plains(tier) })
+	h.Register("C15", func(tier string) ([]*h.Scn, []*h.Plain) { return nil, c15.Plains(tier) })
+	h.Register("C16", func(tier string) ([]*h.Scn, []*h.Plain) { return nil, c16.Plains(tier) })
+}
